@@ -164,7 +164,7 @@ def zero_sum_guard(vn, st):
 
 
 def latent_nf(prog, f):
-    vn = VN(prog, f)
+    vn = VN(prog, f, inline=2, skip=lambda st: zero_sum_guard(None, st))
     x = f.params()[1]
     guard = False
     for st in body_nodoc(f.node):
@@ -288,7 +288,9 @@ def check_criteria(prog, rep, tier):
                     rep.violate("R1-criterion", construct, "latent term %s differs from the %s encoding's %s" % (nf.show()[:140], first[0], first[1].show()[:140]), where(f),
                                 first[1].show()[:140], nf.show()[:140])
             bad = leftover_x(nf, x)
-            if bad:
+            if bad and any(b in ("meth", "call") for b in bad):
+                rep.unrec("R2-invariance", construct, "the decision vector is handed to a helper that is not straight-line arithmetic: what it does with it is not modelled")
+            elif bad:
                 rep.violate("R2-invariance", construct, "the decision vector is used outside the normalised contribution / symmetric reductions (inside %s): the value depends on "
                             "the scale or the order of the decision" % ", ".join(sorted(set(bad))), where(f), "x only through x/sum(x), len(x) or a symmetric reduction", nf.show()[:120])
             else:
